@@ -305,3 +305,60 @@ def seq_incomplete(lib, p11drv, seed, idx):
     finally:
         p.close()
     return {'i': idx, 'trace': [(l[:200], r) for l, r in p.trace], 'findings': findings, 'model_dis': [], 'model_evals': 0, 'stats': {}}
+
+
+def seq_long_templates(lib, p11drv, seed, idx):
+    """templates with many entries (31, 32, 33, 40, 64, 200: around and beyond every fixed-size array the entry points copy them
+    into) handed to every template-taking call; the answer may be any return code, the process must live (sanitizer build)"""
+    rng = random.Random(seed * 86028157 + idx)
+    P11.EXTRA_ENV = asan_env()
+    try:
+        p = P11(p11drv, lib)
+    finally:
+        P11.EXTRA_ENV = {}
+    findings = []
+    try:
+        p.op('init')
+        p.op('inittoken tfree 31323334 tok0')
+        s = p.op('open t0 rw')['h']
+        p.op('login %s 0 31323334' % s)
+        p.op('initpin %s 35363738' % s)
+        p.op('logout %s' % s)
+        p.op('login %s 1 35363738' % s)
+        base = p.op('create %s 0=u:4 0x100=u:0x1f 0x11=x:%s 1=b:0 2=b:0 0x162=b:1 0x103=b:0 0x106=b:1 0x107=b:1 0x10c=b:1 0x104=b:1' % (s, '5c' * 16)).get('h')
+        blob = p.op('wrap %s 0x2109 %s %s 600' % (s, base, base)).get('out', 'ab' * 24)
+
+        def filler(n, valid):
+            """n entries: labels and ids over and over (a valid template), or unknown vendor attributes"""
+            if valid:
+                return ' '.join(('3=x:%02x%02x' % (i & 255, n & 255)) if i % 2 else ('0x102=x:%02x' % (i & 255)) for i in range(n))
+            return ' '.join('0x%x=x:%02x' % (0x80000000 + i, i & 255) for i in range(n))
+        for _ in range(rng.randint(6, 10)):
+            n = rng.choice([31, 32, 33, 34, 40, 64, 200])
+            valid = rng.random() < 0.7
+            f1, f2 = filler(n, valid), filler(rng.choice([2, n]), valid)
+            call = rng.choice(['create', 'genkey', 'genpair_rsa', 'genpair_ec', 'genpair_ed', 'genpair_ed', 'unwrap', 'derive', 'copy', 'setattr', 'findinit', 'getattr'])
+            line = {
+                'create': 'create %s 0=u:0 1=b:0 2=b:0 %s' % (s, f1),
+                'genkey': 'genkey %s 0x1080 0=u:4 0x100=u:0x1f 0x161=u:16 1=b:0 2=b:0 %s' % (s, f1),
+                'genpair_rsa': 'genpair %s 0x0 0x121=u:1024 0x122=x:010001 1=b:0 2=b:0 %s -- 1=b:0 2=b:0 %s' % (s, f2, f1),
+                'genpair_ec': 'genpair %s 0x1040 0x180=x:06082a8648ce3d030107 1=b:0 2=b:0 %s -- 1=b:0 2=b:0 %s' % (s, f2, f1),
+                'genpair_ed': 'genpair %s 0x1055 0x180=x:130c656477617264733235353139 1=b:0 2=b:0 %s -- 1=b:0 2=b:0 %s' % (s, f2, f1),
+                'unwrap': 'unwrap %s 0x2109 %s %s 0=u:4 0x100=u:0x1f 1=b:0 2=b:0 %s' % (s, base, blob, f1),
+                'derive': 'derive %s 0x1104:sd:%s %s 0=u:4 0x100=u:0x10 0x161=u:16 1=b:0 2=b:0 %s' % (s, '11' * 16, base, f1),
+                'copy': 'copy %s %s %s' % (s, base, f1),
+                'setattr': 'setattr %s %s %s' % (s, base, f1),
+                'findinit': 'findinit %s %s' % (s, f1),
+                'getattr': 'getattr %s %s %s' % (s, base, ' '.join('%s:64' % x.split('=')[0] for x in f1.split())),
+            }[call]
+            r = p.op(line)
+            if call == 'findinit':
+                p.op('findfinal %s' % s)
+            if r.get('rv') in ('DIED', 'HANG'):
+                err = p.stderr_text()
+                san = next((l for l in err.splitlines() if 'ERROR: AddressSanitizer' in l or 'runtime error' in l), '')
+                findings.append(('the process %s on %s with a template of %d entries%s' % ('hung' if r.get('rv') == 'HANG' else 'died', call, n, (' [' + san.strip()[:140] + ']') if san else ''), len(p.trace) - 1))
+                break
+    finally:
+        p.close()
+    return {'i': idx, 'trace': [(l[:300], r) for l, r in p.trace], 'findings': findings, 'model_dis': [], 'model_evals': 0, 'stats': {}}
